@@ -95,6 +95,7 @@ def evaluate(spec, alg, psy, path="default"):
     if len({c[0] for c in calls}) != len(calls):
         probs.append(("invoke-name-reused", "file", {"alg_calls": [c[0] for c in calls]}))
     for i, (inv, (cname, acts)) in enumerate(zip(invs, calls)):
+        raw_acts_psyir = list(acts)
         if path == "psyir":
             lab = "invoke_" + inv["label"].lower() if inv["label"] else None
             if cname not in routs and lab in routs and len(inv["kernels"]) == 1 and cname == "invoke_%d" % i:
@@ -117,7 +118,9 @@ def evaluate(spec, alg, psy, path="default"):
                                                              "dummies": routs[cname].dummies if cname in routs else None,
                                                              "source_invoke": G.invoke_text(inv)}))
                 acts = keep
+        raw_acts = list(acts) if path != "psyir" else raw_acts_psyir
         p, o = X.check_invoke(inv, cname, acts, routs)
+        o["raw_actuals"] = raw_acts
         for c, s, d in p:
             if c == "duplicate-dummy":
                 dups = sorted({x for x in d["dummies"] if d["dummies"].count(x) > 1})
@@ -247,8 +250,18 @@ def run(ctx):
         "no Section hypotheses: the fresh-name search is modelled concretely (root, root_1, ...) and proved to return an unused name",
         "texts are compared blank-free and lower-case: fparser2 is assumed to print two spellings of one reference identically",
         "pre (names present before the first argument is named) = routine name + LFRic reserved names; the theorems hold for every pre"]
+    tr_err = None
+    try:
+        import translate
+        ctx.notes["extracted_tag_keys"] = [l for l in translate.main().split("\n") if l.startswith("Definition")]
+    except Exception as err:                               # noqa: BLE001  (fail-closed translator)
+        tr_err = "%s: %s" % (type(err).__name__, err)
     ok, rep = ctx.prove()
-    ctx.log("proof ok=%s discharged=%d/%d" % (ok, ctx.cov["discharged"], ctx.cov["obligations"]))
+    if tr_err:
+        ok = False
+        rep = dict(rep, translator_error=tr_err)
+    ctx.log("proof ok=%s discharged=%d/%d%s" % (ok, ctx.cov["discharged"], ctx.cov["obligations"],
+                                                 " TRANSLATOR: " + tr_err if tr_err else ""))
 
     rng = ctx.rng("gen")
     work = Work()
@@ -256,6 +269,7 @@ def run(ctx):
     nfiles = ctx.pick(60, 900)
     t0 = time.time()
     cases, coq_cases, failures, refused = [], [], [], 0
+    psyir_cases, psyir_coq = [], []
     try:
         g = G.Gen(rng)
         k = 0
@@ -286,6 +300,15 @@ def run(ctx):
             if res2[0] == "ok":
                 probs2, obs2 = evaluate(spec, res2[1], res2[2], path="psyir")
                 ctx.hist("psyir_invokes_checked", len(obs2))
+                if len(obs2) == len(G.invokes_of(spec)):
+                    for inv2, o2 in zip(G.invokes_of(spec), obs2):
+                        if any(" % " in a for a in o2["raw_actuals"]):
+                            ctx.hist("psyir_model", "skipped: an actual is a CodeBlock (printed as written)")
+                            continue
+                        ctx.hist("psyir_model", "compared")
+                        psyir_cases.append((inv2, o2, text))
+                        psyir_coq.append("(%s, %s)" % (core.coq_list(CE.kcall(kk) for kk in inv2["kernels"]),
+                                                       CE.strs([X.norm(a) for a in o2["raw_actuals"]])))
                 for code, site, d in probs2:
                     failures.append((classify(code, site, d, "psyir"), code, site, d, text, dm))
             invs = G.invokes_of(spec)
@@ -321,8 +344,13 @@ def run(ctx):
     failing = []
     if coq_cases:
         failing = ctx.coq_eval_failing(CE.HEADER, "case", "agrees", coq_cases, shard=ctx.pick(40, 120))
-    ctx.cov["disagreements_checked"] = len(failing)
-    ctx.log("model/implementation disagreements: %d of %d" % (len(failing), len(coq_cases)))
+    failing2 = []
+    if psyir_coq:
+        failing2 = ctx.coq_eval_failing(CE.HEADER + "\nFrom PV Require Import C24.Psyir.", "list kcall * list string",
+                                        "agrees_psyir", psyir_coq, shard=ctx.pick(60, 150))
+    ctx.cov["disagreements_checked"] = len(failing) + len(failing2)
+    ctx.log("model/implementation disagreements: %d of %d (default path), %d of %d (PSyIR path)"
+            % (len(failing), len(coq_cases), len(failing2), len(psyir_coq)))
 
     # ---- thorough tier: execute built-in-only invokes on the bundled infrastructure (supporting evidence)
     run_problems = []
@@ -345,6 +373,15 @@ def run(ctx):
                                "the dynamo0p3 test kernels], distributed_memory=%s)%s; compare the generated CALL's "
                                "actuals with the source texts" % (dm, " with psyclone.generator.LFRIC_TESTING = True"
                                                                   if key.startswith("psyir-path:") else "")})
+    if not ctx.violations and failing2 and not failing and ok:
+        j = failing2[0]
+        ctx.violation({"property": "C24", "broken": "correspondence C24.Psyir.psyir_alg_args = actual list generated by the "
+                       "PSyIR algorithm path (generator.LFRIC_TESTING)", "n_differing": len(failing2),
+                       "first_differing_case": {"source_invoke": G.invoke_text(psyir_cases[j][0]),
+                                                "observed_actuals": psyir_cases[j][1]["raw_actuals"], "file": psyir_cases[j][2],
+                                                "model": ctx.coq_eval_show(CE.HEADER + "\nFrom PV Require Import C24.Psyir.",
+                                                                           ["psyir_alg_args (fun _ => false) (fst %s)" % psyir_coq[j]])}},
+                      no_input=True)
     if not ctx.violations and (failing or not ok):
         i = failing[0] if failing else None
         ctx.violation({"property": "C24",
